@@ -12,6 +12,7 @@ import (
 type node struct {
 	tag   string
 	id    string
+	attr  string // further attributes, written as they are (colspan=2, lang=en)
 	style string
 	text  string
 	kids  []*node
@@ -40,7 +41,27 @@ const (
 	nKindsAll
 )
 
-var kindName = [...]string{"p", "divp", "table", "ul", "spans", "glue", "note"}
+// kinds of the third generation: cells that span columns / rows in a row with a long cell (the row is
+// split between pages and the continuing cell is not at its grid column), and automatic hyphenation
+// (a line broken inside a dictionary word that punctuation is glued to)
+const (
+	kColspan = nKindsAll + iota // <table><tr><td colspan=2>w</td><td>w w w</td>...
+	kRowspan                    // <table><tr><td rowspan=2>w</td><td>w</td></tr><tr><td>w w w</td>...
+	kHyph                       // <p lang=en>w (hyphenation) w</p> with hyphens:auto
+	nKinds3
+)
+
+var kindName = [...]string{"p", "divp", "table", "ul", "spans", "glue", "note", "colspan", "rowspan", "hyph"}
+
+// hyphenMark is the hyphenate-character of the hyphenated blocks: a character of no source text.
+// (No "-" is glued to a word: UAX #14 allows a break after it, a line boundary that replaces no space.)
+const hyphenMark = "~"
+
+// longWords: words of the English hyphenation dictionary (un-der-stand-ing, hy-phen-ation...); block
+// slot uses them from index slot on.
+var longWords = []string{"hyphenation", "understanding", "fundamental", "representation"}
+
+func longWord(slot, i int) string { return longWords[(slot+i)%len(longWords)] }
 
 type blockSpec struct {
 	Kind, N int
@@ -163,8 +184,8 @@ var (
 	menuAll       = menuRange(0, len(menu))
 )
 
-// hasInner: the kinds that have an inner element <block>1.
-func hasInner(kind int) bool { return kind != kP }
+// hasInner: the blocks that have an inner element <block>1.
+func hasInner(b blockSpec) bool { return b.Kind != kP && !(b.Kind == kHyph && b.N < 5) }
 
 // generated words of block slot: taken from the end of the upper-case words, which no skeleton reaches.
 func beforeWord(slot int) string { return words[25-2*slot] }
@@ -295,6 +316,63 @@ func buildBlock(slot int, b blockSpec, src *wordSrc) *node {
 			p.kids = []*node{txt(textOf(ws[:3], salt)), sp(ws[3], ws[4]), txt(textOf(ws[5:], salt+1))}
 		}
 		return p
+	case kColspan, kRowspan:
+		// a row with a long cell (split between pages when it does not fit) whose index in the row is
+		// not its grid column: it follows a colspan cell, or stands beside a rowspan cell of the row above
+		n := 0
+		cell := func(attr string, w ...string) *node {
+			n++
+			c := el("td", sub(n), txt(textOf(w, salt+n)))
+			c.attr = attr
+			return c
+		}
+		row := func(cells ...*node) *node { return el("tr", "", cells...) }
+		var rows []*node
+		if b.Kind == kColspan {
+			switch b.N {
+			case 1:
+				rows = []*node{row(cell("colspan=2", ws[0]))}
+			case 3:
+				rows = []*node{row(cell("colspan=2", ws[0]), cell("", ws[1:]...))}
+			case 5:
+				rows = []*node{row(cell("colspan=2", ws[0]), cell("", ws[1:4]...)), row(cell("", ws[4]))}
+			default:
+				// two continuing cells after the colspan: the grid column of the first is the index of the second
+				rows = []*node{row(cell("colspan=2", ws[0]), cell("", ws[1:4]...), cell("", ws[4:8]...)), row(cell("", ws[8:]...))}
+			}
+		} else {
+			switch b.N {
+			case 1:
+				rows = []*node{row(cell("rowspan=2", ws[0]))}
+			case 3:
+				rows = []*node{row(cell("rowspan=2", ws[0]), cell("", ws[1])), row(cell("", ws[2]))}
+			case 5:
+				rows = []*node{row(cell("rowspan=2", ws[0]), cell("", ws[1])), row(cell("", ws[2:]...))}
+			default:
+				// the spanning cell is long too
+				rows = []*node{row(cell("rowspan=2", ws[:3]...), cell("", ws[3])), row(cell("", ws[4:8]...)), row(cell("", ws[8:]...))}
+			}
+		}
+		return el("table", id, el("tbody", "", rows...))
+	case kHyph:
+		// dictionary words that punctuation is glued to: the hyphenated word does not start the text that
+		// is left for the next line; a soft hyphen; a word followed by punctuation; a word in a span
+		p := el("p", id)
+		p.attr = "lang=en"
+		L := func(i int) string { return longWord(slot, i) }
+		switch b.N {
+		case 1:
+			p.kids = []*node{txt("(" + L(0) + ") " + ws[0])}
+		case 3:
+			p.kids = []*node{txt(ws[0] + " (" + L(0) + ") " + ws[1] + "\n" + ws[2])}
+		case 5:
+			p.kids = []*node{txt(ws[0] + " " + ws[1] + " \"" + L(0) + "\" " + ws[2] + " "), el("span", sub(1), txt(L(1)+", "+ws[3])), txt(" " + ws[4])}
+		default:
+			l2 := L(2)
+			p.kids = []*node{txt(textOf(ws[:3], salt) + " [" + L(0) + "] " + ws[3] + " "), el("span", sub(1), txt("("+L(1)+")")),
+				txt(" " + ws[4] + " " + l2[:4] + "\u00ad" + l2[4:] + " " + textOf(ws[5:], salt+1) + " (\"" + L(3) + "\")")}
+		}
+		return p
 	case kNote:
 		p := el("p", id)
 		note := func(w ...string) *node {
@@ -333,7 +411,7 @@ func (n *node) find(id string) *node {
 // pseudoTarget is the id of the element the pseudo-element rules of block slot select.
 func pseudoTarget(slot, kind int) string {
 	id := string(rune('a' + slot))
-	if kind == kTable {
+	if kind == kTable || kind == kColspan || kind == kRowspan {
 		return id + "1"
 	}
 	return id
@@ -420,6 +498,9 @@ func writeNode(sb *strings.Builder, n *node) {
 	if n.id != "" {
 		sb.WriteString(" id=" + n.id)
 	}
+	if n.attr != "" {
+		sb.WriteString(" " + n.attr)
+	}
 	if n.style != "" {
 		sb.WriteString(` style="` + n.style + `"`)
 	}
@@ -456,6 +537,12 @@ func (d *docSpec) html(c pageCfg) string {
 	for _, b := range d.Blocks {
 		if b.Kind == kNote {
 			sb.WriteString("@page{@footnote{margin:0}}") // the default is margin-top:1em
+			break
+		}
+	}
+	for _, b := range d.Blocks {
+		if b.Kind == kHyph {
+			sb.WriteString(`[lang]{hyphens:auto;hyphenate-character:"` + hyphenMark + `"}`)
 			break
 		}
 	}
@@ -611,6 +698,13 @@ func greedyLines(lens []int, width int) int {
 	lines, cur := 0, 0
 	for _, l := range lens {
 		w := l * 10
+		if l >= 5 {
+			// a dictionary word of a hyphenated block (all other words have two letters): at most one line
+			// per two letters, and the next word may have to start a line
+			lines += (l + 1) / 2
+			cur = width
+			continue
+		}
 		if cur == 0 {
 			lines++
 			cur = w
@@ -646,7 +740,11 @@ func estLines(n *node, width int) int {
 			for _, r := range g.kids {
 				mx := 0
 				for _, c := range r.kids {
-					if l := greedyLines(wordLens(plainText(c)), width/len(r.kids)); l > mx {
+					cw := width / len(r.kids)
+					if n.find(n.id+"1").attr != "" {
+						cw = 10 // a table with spanning cells: one word per line, the whole spanning cell in its first row
+					}
+					if l := greedyLines(wordLens(plainText(c)), cw); l > mx {
 						mx = l
 					}
 				}
@@ -844,7 +942,7 @@ func (d *docSpec) features(c pageCfg) []string {
 				// regions of the top level boxes extend to it. It is shrunk to fit at its static position:
 				// at worst one word per line.
 				if k := oofKind(in.style); k == "float" || k == "absolute" {
-					ih := len(wordLens(plainText(in))) * 10
+					ih := greedyLines(wordLens(plainText(in)), 10) * 10 // (a hyphenated word: several lines)
 					if eff != "" && total+hgt+ih+oofSlack > pageH {
 						// inside an out-of-flow block (shrunk or narrow) the inner box can take a line of its own
 						set[eff+"-overflows-page"] = true
